@@ -103,6 +103,12 @@ def stop_specs() -> list[Spec]:
     ]
 
 
+def avg_specs() -> list[Spec]:
+    # helpers.average_fitness: the one place the rate's "mean fitness" is computed; numpy's average itself is the oracle `mean`
+    return [Spec("gen_average_fitness", "helpers.py", None, "average_fitness", [("population", "population", LIST(AGENT))], F,
+                 attrs={"idioms": {"np.average([agent.fitness for agent in population])": ("(mean (map fit {population}))", F)}})]
+
+
 def report_specs() -> list[Spec]:
     m = "models.py"
     cost_attr = {(AGENT, "cost"): ("cost", X)}
@@ -214,8 +220,9 @@ def regenerate(repo: Path) -> dict:
     emit_group(repo, "GenStop.v", "From Coq Require Import List ZArith Bool Arith.\nFrom PV Require Import Xnum Select PyLib Loop.\n"
                "Import ListNotations.\n",
                "Variable F : Type.\nVariables (fsub : F -> F -> F) (fabs : F -> F) (fltb fleb : F -> F -> bool) (fzero fone : F).\n"
-               "Variable A : Type.\nVariable cost : A -> xnum.\nVariable with_cost : A -> xnum -> A.\n",
-               stop_specs() + report_specs(), status)
+               "Variable A : Type.\nVariable cost : A -> xnum.\nVariable with_cost : A -> xnum -> A.\n"
+               "Variable fit : A -> F.\nVariable mean : list F -> F.\n",
+               stop_specs() + report_specs() + avg_specs(), status)
     emit_group(repo, "GenInit.v", "From Coq Require Import List ZArith Bool Arith.\nFrom PV Require Import Xnum Select PyLib Argsort Vars Init.\n"
                "Import ListNotations.\n",
                "Variable W : Type.\nVariable dot : list xnum -> list W -> xnum.\nVariable FT : Type.\nVariable fitness_of : xnum -> dir -> FT.\n"
